@@ -27,7 +27,7 @@ Proof.
   - split; [discriminate|]. intros [r H]. discriminate.
   - rewrite andb_true_iff, N.eqb_eq, IH. split.
     + intros [E [r H]]. subst. exists r. reflexivity.
-    + intros [r H]. injection H as H1 H2. split; [exact H1|]. exists r. exact H2.
+    + intros [r H]. injection H as H1 H2. split; [symmetry; exact H1|]. exists r. exact H2.
 Qed.
 
 Lemma starts_with_slash_iff s : starts_with_slash s = true <-> exists r, s = 47 :: r.
@@ -37,9 +37,10 @@ Proof.
   - rewrite N.eqb_eq. split; [intros H; subst; eexists; reflexivity|]. intros [r H]. congruence.
 Qed.
 
-(** the plain statement of "covers": everything, or equality, or extension at a '/' *)
-Definition covers_prop (pre p : str) : Prop :=
-  pre = [] \/ p = pre \/ exists r, p = pre ++ 47 :: r.
+Lemma app_cons_ne (pre : str) c r : pre ++ c :: r <> pre.
+Proof.
+  intros H. apply (f_equal (@length N)) in H. rewrite app_length in H. cbn [length] in H. lia.
+Qed.
 
 Lemma matches_nonempty pre p : pre <> [] ->
   matches pre p
@@ -81,7 +82,7 @@ Proof.
   intros Hne Hc. destruct (matches pre (pre ++ c :: r)) eqn:E; [|reflexivity].
   apply matches_iff in E as [H|[H|[r' H]]].
   - contradiction.
-  - exfalso. rewrite <- (app_nil_r pre) in H at 2. apply app_inv_head in H. discriminate.
+  - exfalso. exact (app_cons_ne pre c r H).
   - apply app_inv_head in H. congruence.
 Qed.
 
@@ -109,8 +110,7 @@ Proof.
   destruct H as [H|[H|[r H]]]; [contradiction| |].
   - subst p. rewrite str_eqb_refl, remaining_self. reflexivity.
   - destruct (str_eqb p pre) eqn:E.
-    + apply str_eqb_eq in E. subst p. rewrite <- (app_nil_r pre) in E at 1.
-      apply app_inv_head in E. discriminate.
+    + apply str_eqb_eq in E. subst p. exfalso. exact (app_cons_ne pre 47 r E).
     + subst p. rewrite strip_prefix_app, remaining_app. reflexivity.
 Qed.
 
@@ -130,8 +130,7 @@ Proof.
     destruct H as [H|[H|[r H]]]; [contradiction| |].
     + subst p. rewrite str_eqb_refl, remaining_self. reflexivity.
     + destruct (str_eqb p pre) eqn:E.
-      * apply str_eqb_eq in E. subst p. rewrite <- (app_nil_r pre) in E at 1.
-        apply app_inv_head in E. discriminate.
+      * apply str_eqb_eq in E. subst p. exfalso. exact (app_cons_ne pre 47 r E).
       * subst p. rewrite strip_prefix_app, remaining_app. reflexivity.
 Qed.
 
@@ -172,6 +171,30 @@ Proof.
       * subst c. exists (S k). cbn [app repeat] in *. rewrite IH at 1. reflexivity.
       * exists k. cbn [app] in *. rewrite IH at 1. reflexivity.
     + exists k. cbn [app] in *. rewrite IH at 1. reflexivity.
+Qed.
+
+Lemma norm_root_not_single root a : norm_root root <> [a].
+Proof.
+  destruct root as [|c r]; [discriminate|]. cbn [norm_root].
+  destruct (c =? 47); [destruct r; discriminate|discriminate].
+Qed.
+
+(** a registry prefix never ends in '/' *)
+Lemma norm_prefix_no_trailing_slash p x : norm_prefix p <> x ++ [47].
+Proof.
+  unfold norm_prefix. destruct (norm_root p) as [|a [|b r]] eqn:E.
+  - destruct x; discriminate.
+  - exfalso. exact (norm_root_not_single p a E).
+  - apply trim_end_slashes_last.
+Qed.
+
+(** ... and differs from the given prefix only by a leading '/' and trailing '/' bytes *)
+Lemma norm_prefix_spec p : exists k, norm_root p = norm_prefix p ++ repeat 47 k.
+Proof.
+  unfold norm_prefix. destruct (norm_root p) as [|a [|b r]] eqn:E.
+  - exists 0%nat. reflexivity.
+  - exists 0%nat. reflexivity.
+  - apply trim_end_slashes_spec.
 Qed.
 
 (** * generic list lemmas *)
@@ -272,6 +295,13 @@ Proof.
   - rewrite IH. destruct (last_route b p); [reflexivity|]. reflexivity.
 Qed.
 
+Lemma last_route_skip ops1 o ops2 p :
+  (forall q h, o <> AddRoute q h) -> last_route (ops1 ++ o :: ops2) p = last_route (ops1 ++ ops2) p.
+Proof.
+  intros H. rewrite !last_route_app. cbn [last_route]. destruct (last_route ops2 p); [reflexivity|].
+  destruct o as [q h| | |]; try reflexivity. exfalso. exact (H q h eq_refl).
+Qed.
+
 Lemma last_route_none ops p : (forall h, ~ In (AddRoute p h) ops) -> last_route ops p = None.
 Proof.
   induction ops as [|o ops IH]; intros H; cbn [last_route]; [reflexivity|].
@@ -356,8 +386,6 @@ Qed.
 
 (** * middleware uniformity *)
 
-Definition all_entries (r : router) : list entry := r_map r ++ r_regs r ++ r_structs r.
-
 Lemma mw_uniform ops e :
   In e (all_entries (run_ops ops)) -> e_disp e = wrap (e_raw e) (mws_of ops).
 Proof.
@@ -372,25 +400,6 @@ Lemma mws_registered ops : r_mws (run_ops ops) = mws_of ops.
 Proof. exact (ri_mws _ _ (run_inv_holds ops)). Qed.
 
 (** * lookup as a function of the history *)
-
-Definition spec_lookup (ops : list rop) (p : str) : answer :=
-  let mws := mws_of ops in
-  match last_route ops p with
-  | Some h => ARoute h mws
-  | None =>
-      match find (fun m => matches (fst m) p) (regs_of ops) with
-      | Some (pre, h) => AReg h mws (registry_pointer pre p)
-      | None =>
-          match find (fun m => matches (fst m) p) (structs_of ops) with
-          | Some (pre, h) =>
-              AStruct h mws (match struct_relative pre p with
-                             | Some rel => Some (struct_segments rel)
-                             | None => None
-                             end)
-          | None => ANone
-          end
-      end
-  end.
 
 Lemma lookup_spec ops p : lookup (run_ops ops) p = spec_lookup ops p.
 Proof.
@@ -426,8 +435,6 @@ Proof.
   subst o. rewrite str_eqb_refl in E. discriminate.
 Qed.
 
-Definition no_cover (l : list (str * N)) (p : str) : Prop := forall m, In m l -> ~ covers_prop (fst m) p.
-
 Lemma find_matches_none l p : no_cover l p -> find (fun m => matches (fst m) p) l = None.
 Proof.
   intros H. apply find_none_iff. intros m Hm. destruct (matches (fst m) p) eqn:E; [|reflexivity].
@@ -454,7 +461,7 @@ Proof.
   rewrite !last_route_app, !mws_of_app, !regs_of_app, !structs_of_app, !find_app.
   cbn [last_route mws_of regs_of structs_of find fst].
   destruct (matches (norm_prefix raw) p) eqn:E; [apply matches_iff in E; contradiction|].
-  reflexivity.
+  destruct (last_route ops2 p); reflexivity.
 Qed.
 
 Lemma struct_receives ops1 raw h ops2 p :
@@ -478,27 +485,10 @@ Proof.
   rewrite !last_route_app, !mws_of_app, !regs_of_app, !structs_of_app, !find_app.
   cbn [last_route mws_of regs_of structs_of find fst].
   destruct (matches (norm_root raw) p) eqn:E; [apply matches_iff in E; contradiction|].
-  reflexivity.
+  destruct (last_route ops2 p); reflexivity.
 Qed.
 
 (** ** with distinct handler identities: "is answered by this mount" is an iff *)
-
-Fixpoint hids (ops : list rop) : list N :=
-  match ops with
-  | [] => []
-  | AddRoute _ h :: ops' => h :: hids ops'
-  | AddRegistry _ h :: ops' => h :: hids ops'
-  | AddStruct _ h :: ops' => h :: hids ops'
-  | AddMw _ :: ops' => hids ops'
-  end.
-
-Definition answered_by (a : answer) : option N :=
-  match a with
-  | ANone => None
-  | ARoute h _ => Some h
-  | AReg h _ _ => Some h
-  | AStruct h _ _ => Some h
-  end.
 
 Lemma hids_app a b : hids (a ++ b) = hids a ++ hids b.
 Proof.
@@ -565,8 +555,8 @@ Proof.
     { destruct (last_route ops p) as [h'|] eqn:E; [|reflexivity]. exfalso.
       pose proof Ha as Ha'. rewrite lookup_spec in Ha'. unfold spec_lookup in Ha'. rewrite E in Ha'.
       cbn [answered_by] in Ha'. injection Ha' as Ha'. subst h'.
-      unfold ops in E. rewrite last_route_app in E. cbn [last_route] in E.
-      rewrite <- last_route_app in E. exact (Hfresh (last_route_hid _ _ _ E)). }
+      unfold ops in E. rewrite last_route_skip in E by (intros; discriminate).
+      exact (Hfresh (last_route_hid _ _ _ E)). }
     split; [exact Hl|]. split; [|exact Hc].
     intros m Hm Hcm.
     rewrite lookup_spec in Ha. unfold spec_lookup in Ha. rewrite Hl in Ha.
@@ -602,8 +592,8 @@ Proof.
     { destruct (last_route ops p) as [h'|] eqn:E; [|reflexivity]. exfalso.
       pose proof Ha as Ha'. rewrite lookup_spec in Ha'. unfold spec_lookup in Ha'. rewrite E in Ha'.
       cbn [answered_by] in Ha'. injection Ha' as Ha'. subst h'.
-      unfold ops in E. rewrite last_route_app in E. cbn [last_route] in E.
-      rewrite <- last_route_app in E. exact (Hfresh (last_route_hid _ _ _ E)). }
+      unfold ops in E. rewrite last_route_skip in E by (intros; discriminate).
+      exact (Hfresh (last_route_hid _ _ _ E)). }
     rewrite lookup_spec in Ha. unfold spec_lookup in Ha. rewrite Hl in Ha.
     destruct (find (fun m => matches (fst m) p) (regs_of ops)) as [[pre' h']|] eqn:Er.
     { exfalso. cbn [answered_by] in Ha. injection Ha as Ha. subst h'.
